@@ -205,7 +205,7 @@ pub mod merge_channel {
 
 /// C19: a real `ClusterWorker::work()` fed by a real merge channel (no network).
 pub mod cluster_worker {
-    pub use crate::cluster::worker_verif::WorkerRig;
+    pub use crate::cluster::worker_verif::{ProducerRig, TakenUpdate, WorkerRig};
 }
 
 /// C13: the speculative execution driver loop with synthetic executions.
